@@ -65,6 +65,11 @@ pub struct Case { pub kind: Kind, pub cty: CTy, pub start: PVal, pub ops: Vec<Op
 
 type Model = BTreeMap<Vec<i64>, RV>;
 
+/// a coefficient beyond 2^4096: the history ends (repeated squaring would double the length at every step; only costs time)
+fn coeffs_too_big(m: &Model) -> bool {
+    m.values().any(|v| match v { RV::Z(x) => x.bits() > 4096, RV::Q(q) => q.numer().bits() > 4096 || q.denom().bits() > 4096, _ => false })
+}
+
 // ---------------------------------------------------------------------------
 // monomial adapters
 
@@ -261,6 +266,7 @@ where X: MX, R: Sc + yui::Ring + EvalInt<X>, for<'a> &'a R: yui::RingOps<R> {
     let mut hist = vec![model.clone()];
     let (mut cancel, mut bigprod, mut steps) = (false, false, 0);
     for (i, op) in c.ops.iter().enumerate() {
+        if coeffs_too_big(&model) { break }
         let what = format!("op #{i} {:?}", op);
         match op {
             Op::Bin(b, form, swap, v) => {
@@ -377,6 +383,7 @@ fn run_hpoly<R>(c: &Case) -> Chk<Pass> where R: Sc + yui::Ring, for<'a> &'a R: y
     let Some(mut acc) = mk(d0, &c0) else { return discard("unrepresentable") };
     let (mut steps, mut rejected, mut cancel) = (0, false, false);
     for (i, op) in c.ops.iter().enumerate() {
+        if coeffs_too_big(&model) { break }
         let what = format!("op #{i} {:?} (HPoly)", op);
         if let Op::Bin(b, form, swap, v) = op {
             let xm = take1(resolve(v, c.cty, 1, false, &model, &[]));
@@ -430,6 +437,7 @@ fn run_lc<R>(c: &Case) -> Chk<Pass> where R: Sc + yui::Ring, for<'a> &'a R: yui:
     let (mut steps, mut cancel) = (0, false);
     let mut hist = vec![model.clone()];
     for (i, op) in c.ops.iter().enumerate() {
+        if coeffs_too_big(&model) { break }
         let what = format!("op #{i} {:?} (Lc)", op);
         match op {
             Op::Bin(b, form, swap, v) if *b != Bin::Mul => {
